@@ -101,38 +101,46 @@ fn has(context: &Context, id: WorkId) -> bool {
     }
 }
 
-fn bytes_for(context: &Context, id: WorkId) -> Result<Option<Vec<u8>>, Error> {
+/// The bytes of a table we have, or `None` if there is nothing to write for it.
+///
+/// A table that exists but cannot be serialized (validation or offset packing
+/// fails) is an error: silently leaving it out would produce a font that lacks
+/// a table the sources asked for.
+fn bytes_for(context: &Context, id: WorkId, tag: Tag) -> Result<Option<Vec<u8>>, Error> {
     // TODO: to_vec copies :(
     let bytes = match id {
-        WorkId::Avar => context.avar.get().as_ref().as_ref().and_then(to_bytes),
-        WorkId::Cmap => to_bytes(context.cmap.get().as_ref()),
-        WorkId::Colr => to_bytes(context.colr.get().as_ref()),
-        WorkId::Cpal => to_bytes(context.cpal.get().as_ref()),
-        WorkId::Fvar => to_bytes(context.fvar.get().as_ref()),
-        WorkId::Head => to_bytes(context.head.get().as_ref()),
-        WorkId::Hhea => to_bytes(context.hhea.get().as_ref()),
-        WorkId::Hmtx => Some(context.hmtx.get().as_ref().get().to_vec()),
-        WorkId::Gasp => to_bytes(context.gasp.get().as_ref()),
-        WorkId::Glyf => Some(context.glyf.get().as_ref().get().to_vec()),
-        WorkId::Gpos => to_bytes(context.gpos.get().as_ref()),
-        WorkId::Gsub => to_bytes(context.gsub.get().as_ref()),
-        WorkId::Gdef => to_bytes(context.gdef.get().as_ref()),
-        WorkId::Gvar => Some(context.gvar.get().as_ref().get().to_vec()),
-        WorkId::Loca => Some(context.loca.get().as_ref().get().to_vec()),
-        WorkId::Maxp => to_bytes(context.maxp.get().as_ref()),
-        WorkId::Name => to_bytes(context.name.get().as_ref()),
-        WorkId::Os2 => to_bytes(context.os2.get().as_ref()),
-        WorkId::Post => to_bytes(context.post.get().as_ref()),
-        WorkId::Stat => to_bytes(context.stat.get().as_ref()),
-        WorkId::Hvar => to_bytes(context.hvar.get().as_ref()),
-        WorkId::Mvar => to_bytes(context.mvar.get().as_ref()),
-        WorkId::Meta => to_bytes(context.meta.get().as_ref()),
-        WorkId::Vhea => to_bytes(context.vhea.get().as_ref()),
-        WorkId::Vmtx => Some(context.vmtx.get().as_ref().get().to_vec()),
-        WorkId::Vvar => to_bytes(context.vvar.get().as_ref()),
+        WorkId::Avar => context.avar.get().as_ref().as_ref().map(to_bytes),
+        WorkId::Cmap => Some(to_bytes(context.cmap.get().as_ref())),
+        WorkId::Colr => Some(to_bytes(context.colr.get().as_ref())),
+        WorkId::Cpal => Some(to_bytes(context.cpal.get().as_ref())),
+        WorkId::Fvar => Some(to_bytes(context.fvar.get().as_ref())),
+        WorkId::Head => Some(to_bytes(context.head.get().as_ref())),
+        WorkId::Hhea => Some(to_bytes(context.hhea.get().as_ref())),
+        WorkId::Hmtx => Some(Ok(context.hmtx.get().as_ref().get().to_vec())),
+        WorkId::Gasp => Some(to_bytes(context.gasp.get().as_ref())),
+        WorkId::Glyf => Some(Ok(context.glyf.get().as_ref().get().to_vec())),
+        WorkId::Gpos => Some(to_bytes(context.gpos.get().as_ref())),
+        WorkId::Gsub => Some(to_bytes(context.gsub.get().as_ref())),
+        WorkId::Gdef => Some(to_bytes(context.gdef.get().as_ref())),
+        WorkId::Gvar => Some(Ok(context.gvar.get().as_ref().get().to_vec())),
+        WorkId::Loca => Some(Ok(context.loca.get().as_ref().get().to_vec())),
+        WorkId::Maxp => Some(to_bytes(context.maxp.get().as_ref())),
+        WorkId::Name => Some(to_bytes(context.name.get().as_ref())),
+        WorkId::Os2 => Some(to_bytes(context.os2.get().as_ref())),
+        WorkId::Post => Some(to_bytes(context.post.get().as_ref())),
+        WorkId::Stat => Some(to_bytes(context.stat.get().as_ref())),
+        WorkId::Hvar => Some(to_bytes(context.hvar.get().as_ref())),
+        WorkId::Mvar => Some(to_bytes(context.mvar.get().as_ref())),
+        WorkId::Meta => Some(to_bytes(context.meta.get().as_ref())),
+        WorkId::Vhea => Some(to_bytes(context.vhea.get().as_ref())),
+        WorkId::Vmtx => Some(Ok(context.vmtx.get().as_ref().get().to_vec())),
+        WorkId::Vvar => Some(to_bytes(context.vvar.get().as_ref())),
         _ => panic!("Missing a match for {id:?}"),
     };
-    Ok(bytes)
+    bytes.transpose().map_err(|e| Error::DumpTableError {
+        e,
+        context: tag.to_string(),
+    })
 }
 
 impl Work<Context, AnyWorkId, Error> for FontWork {
@@ -219,7 +227,7 @@ impl Work<Context, AnyWorkId, Error> for FontWork {
                 continue;
             }
             debug!("Grabbing {tag} for final font");
-            if let Some(bytes) = bytes_for(context, work_id.clone())? {
+            if let Some(bytes) = bytes_for(context, work_id.clone(), *tag)? {
                 if is_variable_only(work_id) && is_static {
                     log::warn!("We generated {tag} for a static font, which seems weird but okay");
                 }
@@ -234,5 +242,43 @@ impl Work<Context, AnyWorkId, Error> for FontWork {
         debug!("Assembled {} byte font", font.len());
         context.font.set(font.into());
         Ok(())
+    }
+}
+
+#[cfg(test)]
+mod tests {
+    use fontir::orchestration::Context as IrContext;
+    use write_fonts::tables::name::NameRecord;
+
+    use super::*;
+
+    fn name_table(n_strings: u16) -> Name {
+        // each string is 24000 bytes of UTF-16; offsets into the string storage are 16 bit
+        Name::new(
+            (0..n_strings)
+                .map(|i| {
+                    let text = char::from(b'a' + i as u8).to_string().repeat(12000);
+                    NameRecord::new(3, 1, 0x409, (256 + i).into(), text.into())
+                })
+                .collect(),
+        )
+    }
+
+    #[test]
+    fn table_that_cannot_be_written_is_an_error() {
+        let ir_ctx = IrContext::new_root(Default::default(), None);
+        let context = Context::new_root(Default::default(), None, None, None, false, &ir_ctx)
+            .copy_for_work(Access::All, Access::All);
+
+        context.name.set(name_table(3));
+        assert!(bytes_for(&context, WorkId::Name, Name::TAG).unwrap().is_some());
+
+        // the fourth string starts beyond 65535: the table cannot be packed
+        context.name.set(name_table(4));
+        let err = bytes_for(&context, WorkId::Name, Name::TAG).unwrap_err();
+        assert!(
+            matches!(&err, Error::DumpTableError { context, .. } if context == "name"),
+            "{err}"
+        );
     }
 }
